@@ -1223,6 +1223,184 @@ func runRecipe(rec recipe, idx int, cfg string, thorough bool) []*outcome {
 	return outs
 }
 
+// ------------------------------------------------------------------ part C: several inputs
+
+type multiCmd struct {
+	name   string
+	args   []string // flags + subcommand; the inputs are appended
+	json   bool
+	in     string // sample
+	arrKey string // JSON: key of the array with one entry per input
+	quick  bool
+}
+
+func multiCmds() []multiCmd {
+	form := "samples:form/demo/english.pdf"
+	return []multiCmd{
+		{name: "info", args: []string{"info"}, in: "MULTI.pdf", quick: true},
+		{name: "info-json", args: []string{"info", "--json"}, json: true, in: "MULTI.pdf", arrKey: "infos", quick: true},
+		{name: "validate", args: []string{"validate"}, in: "MULTI.pdf"},
+		{name: "form-list", args: []string{"form", "list"}, in: form},
+		{name: "form-list-json", args: []string{"form", "list", "--json"}, json: true, in: form, arrKey: "forms"},
+		{name: "images-list", args: []string{"images", "list"}, in: "MULTI.pdf"},
+		{name: "permissions-list", args: []string{"permissions", "list"}, in: "MULTI.pdf"},
+	}
+}
+
+// one (command, second input, position of "-") cell: file variant vs stream variant
+func runMulti(mc multiCmd, idx int, cfg string) []*outcome {
+	var outs []*outcome
+	sample := fixture(mc.in)
+	type scen struct {
+		name  string
+		other string // second input
+		good  bool
+	}
+	scens := []scen{{"all-good", "good2.pdf", true}, {"one-unreadable", "bad.pdf", false}, {"one-missing", "missing.pdf", false}}
+	for si, sc := range scens {
+		for pos := 0; pos < 2; pos++ {
+			rec := recipe{name: "multi-" + mc.name, args: append(append([]string{}, mc.args...), "<inputs>")}
+			o := &outcome{rec: rec, variant: fmt.Sprintf("%s/stdin-at-%d", sc.name, pos)}
+			outs = append(outs, o)
+			dir := filepath.Join(scratch, fmt.Sprintf("c%d-%d-%d", idx, si, pos))
+			must(os.MkdirAll(dir, 0o755))
+			must(os.WriteFile(filepath.Join(dir, "in.pdf"), sample, 0o644))
+			must(os.WriteFile(filepath.Join(dir, "good2.pdf"), sample, 0o644))
+			must(os.WriteFile(filepath.Join(dir, "bad.pdf"), []byte("this is not a PDF file at all\n"), 0o644))
+			fin, sin := []string{"in.pdf", sc.other}, []string{"-", sc.other}
+			codes := "1,1"
+			if !sc.good {
+				codes = "1,0"
+			}
+			if pos == 1 {
+				fin, sin = []string{sc.other, "in.pdf"}, []string{sc.other, "-"}
+				if !sc.good {
+					codes = "0,1"
+				}
+			}
+			fr := runBin(cfg, dir, nil, append(append([]string{}, mc.args...), fin...)...)
+			sr := runBin(cfg, dir, sample, append(append([]string{}, mc.args...), sin...)...)
+			obs := func(rr runRes, inputs []string) (string, any) {
+				l := []int{rr.exit}
+				if !mc.json {
+					return nlist(l), nil
+				}
+				if len(bytes.TrimSpace(rr.stdout)) == 0 {
+					return nlist(append(l, 0, 0)), nil
+				}
+				v, err := oneJSON(rr.stdout)
+				if err != nil {
+					return nlist(append(l, 9, 0)), nil
+				}
+				n := 0
+				if m, ok := v.(map[string]any); ok {
+					if a, ok := m[mc.arrKey].([]any); ok {
+						n = len(a)
+					}
+				}
+				return nlist(append(l, 1, n)), v
+			}
+			fo, fv := obs(fr, fin)
+			so, sv := obs(sr, sin)
+			o.cases = append(o.cases, [3]string{"multi", "false\t" + vh.Bool(mc.json) + "\t" + codes, fo}, [3]string{"multi", "true\t" + vh.Bool(mc.json) + "\t" + codes, so})
+			in := fmt.Sprintf("file: pdfcpu %s %s | stream: pdfcpu %s %s < in.pdf", strings.Join(mc.args, " "), strings.Join(fin, " "), strings.Join(mc.args, " "), strings.Join(sin, " "))
+			fail := func(class, detail string) { o.fails = append(o.fails, [3]string{class, in, trunc(detail, 600)}) }
+			bad := false
+			if fr.exit != sr.exit {
+				fail("multi-input-exit-status-differs:"+mc.name, fmt.Sprintf("file %d stream %d; stream stderr: %s", fr.exit, sr.exit, trunc(string(sr.stderr), 300)))
+				bad = true
+			}
+			if !sc.good {
+				for _, x := range []struct {
+					n  string
+					rr runRes
+				}{{"file", fr}, {"stream", sr}} {
+					switch {
+					case x.rr.exit == 0:
+						fail("multi-input-failure-exit-zero:"+mc.name+":"+x.n, trunc(string(x.rr.stdout), 200))
+						bad = true
+					case x.rr.exit != 1:
+						fail("multi-input-failure-exit-not-1:"+mc.name+":"+x.n, fmt.Sprintf("exit %d %s", x.rr.exit, trunc(string(x.rr.stderr), 300)))
+						bad = true
+					case len(bytes.TrimSpace(x.rr.stderr)) == 0:
+						fail("multi-input-failure-not-reported:"+mc.name+":"+x.n, "empty stderr")
+						bad = true
+					case bytes.Contains(x.rr.stderr, []byte("goroutine ")) || bytes.Contains(x.rr.stderr, []byte("panic:")):
+						fail("multi-input-failure-panic:"+mc.name+":"+x.n, trunc(string(x.rr.stderr), 300))
+						bad = true
+					}
+				}
+				if a, b := textNorm(fr.stderr, "in.pdf"), textNorm(sr.stderr, "in.pdf"); a != b {
+					fail("multi-input-stderr-differs:"+mc.name, firstDiff(a, b))
+					bad = true
+				}
+			} else if fr.exit != 0 || sr.exit != 0 {
+				fail("multi-input-command-fails:"+mc.name, fmt.Sprintf("file %d (%s) stream %d (%s)", fr.exit, trunc(string(fr.stderr), 200), sr.exit, trunc(string(sr.stderr), 200)))
+				bad = true
+			}
+			if mc.json {
+				// machine-readable output: the stream variant prints a JSON document iff the file variant does
+				fEmpty, sEmpty := len(bytes.TrimSpace(fr.stdout)) == 0, len(bytes.TrimSpace(sr.stdout)) == 0
+				switch {
+				case fEmpty && !sEmpty:
+					fail("multi-input-json-output-on-failure:"+mc.name, trunc(string(sr.stdout), 300))
+					bad = true
+				case !fEmpty && sEmpty:
+					fail("multi-input-json-missing:"+mc.name, trunc(string(sr.stderr), 300))
+					bad = true
+				case !fEmpty:
+					if fv == nil || sv == nil {
+						fail("json-stdout-not-one-document:multi-"+mc.name, trunc(string(sr.stdout), 200))
+						bad = true
+						break
+					}
+					fb, _ := json.Marshal(scrubJSON(fv, ""))
+					sb, _ := json.Marshal(scrubJSON(sv, ""))
+					if !bytes.Equal(fb, sb) {
+						fail("multi-input-json-differs:"+mc.name, firstDiff(string(fb), string(sb)))
+						bad = true
+					}
+					// entries correspond 1:1 to the inputs (count, and order where entries carry their source)
+					for vi, v := range []any{fv, sv} {
+						inputs := [][]string{fin, sin}[vi]
+						a, _ := v.(map[string]any)[mc.arrKey].([]any)
+						if len(a) != len(inputs) {
+							fail("multi-input-json-entry-count:"+mc.name, fmt.Sprintf("%d entries for %d inputs", len(a), len(inputs)))
+							bad = true
+							continue
+						}
+						for i, e := range a {
+							if m, ok := e.(map[string]any); ok {
+								if src, ok := m["source"].(string); ok && src != inputs[i] && !(inputs[i] == "-" && src == "stdin") {
+									fail("multi-input-json-entry-order:"+mc.name, fmt.Sprintf("entry %d has source %q, input is %q", i, src, inputs[i]))
+									bad = true
+								}
+							}
+						}
+					}
+				}
+				if sc.good && sEmpty && sr.exit == 0 {
+					fail("multi-input-json-missing:"+mc.name, "exit 0 and empty stdout")
+					bad = true
+				}
+			} else if a, b := textNorm(fr.stdout, "in.pdf"), textNorm(sr.stdout, "in.pdf"); a != b {
+				fail("multi-input-text-output-differs:"+mc.name, firstDiff(a, b))
+				bad = true
+			}
+			if ents, _ := os.ReadDir(filepath.Join(dir, "tmp")); len(ents) != 0 {
+				fail("temporary-stdin-copy-left-behind:multi-"+mc.name, ents[0].Name())
+				bad = true
+			}
+			if !bad {
+				o.ok()
+			}
+			o.counters = append(o.counters, "C:"+sc.name)
+			os.RemoveAll(dir)
+		}
+	}
+	return outs
+}
+
 func firstDiff(a, b string) string {
 	n := len(a)
 	if len(b) < n {
@@ -1360,7 +1538,30 @@ func main() {
 			results[i] = runRecipe(recs[i], i, cfg, thorough)
 		}(i)
 	}
+	mcs := multiCmds()
+	mresults := make([][]*outcome, len(mcs))
+	for i := range mcs {
+		if !thorough && !mcs[i].quick && (i+int(r.Seed))%5 != 0 {
+			r.Count("C:command-skipped-in-quick-tier")
+			continue
+		}
+		wg.Add(1)
+		go func(i int) {
+			defer wg.Done()
+			sem <- struct{}{}
+			defer func() { <-sem }()
+			defer func() {
+				if p := recover(); p != nil {
+					o := &outcome{rec: recipe{name: "multi-" + mcs[i].name}, variant: "harness"}
+					o.fail("harness-panic:multi-"+mcs[i].name, fmt.Sprint(p))
+					mresults[i] = append(mresults[i], o)
+				}
+			}()
+			mresults[i] = runMulti(mcs[i], i, cfg)
+		}(i)
+	}
 	wg.Wait()
+	results = append(results, mresults...)
 	for _, outs := range results {
 		for _, o := range outs {
 			for _, c := range o.cases {
@@ -1375,7 +1576,9 @@ func main() {
 			for _, c := range o.counters {
 				r.Count(c)
 			}
-			r.Count("B:" + o.rec.kind + "/" + o.variant)
+			if o.rec.kind != "" {
+				r.Count("B:" + o.rec.kind + "/" + o.variant)
+			}
 		}
 	}
 }
